@@ -870,7 +870,18 @@ StepDrainEnd(h, e) ==
 \* same program against the same deterministic broker, once undisturbed and once with
 \* cancellations at pending points (continued by poll / drive) or with arbitrary fragmentation of
 \* reads and writes.  Requests cancelled before they were enqueued are absent from the base run.
+\* C17: the run before (h.prev) is a brand-new session, the run that just ended (h.sum) one that
+\* lived through a random history and was drained; from `capstart` on both ran the same requests
+\* against the same deterministic broker and must have been answered alike (sizes and counts)
+StepAged(h, e) ==
+  LET a == h.prev  b2 == h.sum
+      h1 == Check(Tick(h, "C17"), a.res = b2.res, "C17",
+                  "an aged quiescent session answers the probe requests differently from a brand-new one")
+  IN IF PrintT("@STAT " \o ToJson([run |-> h.cfg.name, n |-> [q \in AllProps |-> IF q = "C17" THEN 1 ELSE 0]]))
+     THEN h1 ELSE h1
+
 StepTwin(h, e) ==
+  IF e.kind = "aged" THEN StepAged(h, e) ELSE
   LET p == IF e.kind = "cancel" THEN "C13" ELSE "C15"
       a == h.prev  b2 == h.sum
       \* packets of one class, in order (class by packet type: requests, PUBREL, acknowledgements, other)
@@ -936,6 +947,7 @@ Step(h0, e) ==
     [] e.e = "watchdog" -> Viol(h, "C16", "run-away: I/O watchdog tripped (unbounded loop or re-sending)")
     [] e.e = "drainend" -> StepDrainEnd(h, e)
     [] e.e = "twin" -> StepTwin(h, e)
+    [] e.e = "capstart" -> [h EXCEPT !.sum = EmptySum]
     [] e.e = "end" -> IF PrintT("@STAT " \o ToJson([run |-> h.cfg.name, n |-> h.n])) THEN h ELSE h
     [] OTHER -> h
 
